@@ -38,7 +38,10 @@ def targeted(rng):
     names = rng.sample(ge.NAMES, 5)
     a, b, c, d, e = names
     v = lambda n, star=None, ivs=(): [n, star, [list(i) for i in ivs]]  # noqa: E731
-    k = rng.randrange(14)
+    k = rng.randrange(16)
+    if k >= 14:  # compound fractions over multisets of a few atoms (repeated factors on both sides)
+        atoms = [["P", None, [v(a)], []], ["P", None, [v(b)], [v(a)]], ["P", None, [v(c)], []], ["P", None, [v(d)], []]]
+        return ge.rand_repeated_fraction(rng, atoms[: rng.choice([2, 3, 4])])
     if k == 12:  # sibling fractions / sums of fractions with one numerator and different denominators
         num = ["P", None, [v(a), v(b)], []]
         dens = [["P", None, [v(a)], []], ["P", None, [v(b)], []], ["P", None, [v(b)], [v(a)]], ["one"]]
